@@ -62,12 +62,35 @@ Theorem C12_recreated_name_is_a_new_empty_keyspace : forall (I : N) (d : db) (h 
   forall k, absd I (fst (do_ks d1 h2 (k_name ks))) (d_next_id d1) k = None.
 Proof. exact delks_then_create_is_empty. Qed.
 
+(* across a reopen: deleting the keyspace a name currently maps to removes its meta row, and the next recovery produces no
+   keyspace object for that id — whatever is left of its directory, and although journal records with its id still exist *)
+Theorem C12_deleted_keyspace_gone_after_reopen : forall cfg (d : db) (h id : N) (ks : kspace),
+  alookup h (d_handles d) = Some id -> ks_of d id = Some ks -> blookup (k_name ks) (d_map d) = Some id ->
+  let d1 := fst (do_delks d h) in
+  kfind (d_kss (do_reopen cfg d1)) id = None.
+Proof. exact deleted_keyspace_gone_after_reopen. Qed.
+
+(* ... and those journal records (items and clears whose keyspace id has no meta row) are ignored by replay *)
+Theorem C12_records_of_deleted_keyspace_ignored : forall cfg meta mp st b,
+  (forall it, In it (rb_items b) -> alookup (ri_ks it) meta = None) -> (forall c, In c (rb_clears b) -> alookup c meta = None) ->
+  replay_batch cfg meta mp st b = st.
+Proof. exact records_of_deleted_ignored. Qed.
+
+(* the recovered keyspaces are exactly the directories that have a meta row *)
+Theorem C12_recovered_keyspaces_are_the_registered_directories : forall cfg mode filters active sealed meta dirs pn ms,
+  map k_id (d_kss (recover cfg mode filters active sealed meta dirs pn ms))
+  = map fst (filter (fun p => match alookup (fst p) meta with Some _ => true | None => false end) dirs).
+Proof. exact recover_ids. Qed.
+
 (* programs with deletions and reopens keep the invariants under which all of the above (and C01's refinement steps) hold *)
 Theorem C12_invariants_with_deletion_and_reopen : forall (ops : list rop) d,
   DInv d -> JS d -> DInv (fold_left rstep ops d) /\ JS (fold_left rstep ops d).
 Proof. exact rrun_inv. Qed.
 
 Print Assumptions C12_delete_changes_no_read.
+Print Assumptions C12_deleted_keyspace_gone_after_reopen.
+Print Assumptions C12_records_of_deleted_keyspace_ignored.
+Print Assumptions C12_recovered_keyspaces_are_the_registered_directories.
 Print Assumptions C12_recreated_name_is_a_new_empty_keyspace.
 Print Assumptions C12_invariants_with_deletion_and_reopen.
 Print Assumptions C12_frame.
